@@ -65,8 +65,22 @@ static void gen_item(vh_rng_t * rng, item_t * it) {
             const char * d = decs[vh_below(rng, sizeof decs / sizeof decs[0])]; char num[40]; static char padded[700];
             if (vh_chance(rng, 1, 3)) { snprintf(num, sizeof num, "%s%u", vh_chance(rng, 1, 4) ? "-" : "", (unsigned) vh_below(rng, 100000)); d = num; }
             if (vh_chance(rng, 1, 10)) { pad_digits(rng, padded, sizeof padded, d, (d[0] == '-' || d[0] == '+') ? 1 : 0); d = padded; }
+            if (vh_chance(rng, 1, 12) && !strpbrk(d, "eE") && strlen(d) < 24) {
+                /* white space around the exponent mark is part of the number (488.2 7.7.2.2) and as unbounded as any white space: runs of 0..130 blanks */
+                static const int runs[] = { 0, 1, 2, 5, 30, 60, 61, 62, 63, 64, 65, 130 }; static char spaced[400], stripped[64];
+                int w1 = runs[vh_below(rng, 12)], w2 = runs[vh_below(rng, 12)], e = (int) vh_below(rng, 25) - 12; size_t k = 0; int i2;
+                k += (size_t) snprintf(spaced + k, sizeof spaced - k, "%s", d);
+                for (i2 = 0; i2 < w1; i2++) spaced[k++] = (i2 % 7 == 3) ? '\t' : ' ';
+                spaced[k++] = vh_chance(rng, 1, 2) ? 'E' : 'e';
+                for (i2 = 0; i2 < w2; i2++) spaced[k++] = ' ';
+                snprintf(spaced + k, sizeof spaced - k, "%d", e);
+                snprintf(stripped, sizeof stripped, "%sE%d", d, e);
+                vh_count(w1 + w2 >= 60 ? "items.number_with_60_or_more_blanks_around_the_exponent_mark" : "items.number_with_blanks_around_the_exponent_mark", 1);
+                it->dval = strtod(stripped, NULL); it->is_plain = 0; it->is_integer = 0; d = spaced;
+            } else {
             it->dval = strtod(d, NULL); it->is_plain = !strpbrk(d, "eE");
             it->is_integer = !strpbrk(d, ".eE"); if (it->is_integer) it->ival = strtoll(d, NULL, 10);
+            }
             if (t == IT_DEC) snprintf(it->text, sizeof it->text, "%s", d);
             else {
                 /* pick a suffix that is known (DECSUF) / unknown (DECBADSUF) in the table of this case's context */
